@@ -50,6 +50,32 @@ def parallel_map(fn_mod: str, fn_name: str, items: list, procs: int = 16, chunk:
     return out
 
 
+def forked(fn, *args):
+    """Run fn(*args) in a forked child (pristine copy of the module state of the library) and return its result."""
+    import pickle
+    r, w = os.pipe()
+    pid = os.fork()
+    if pid == 0:
+        try:
+            os.close(r)
+            try:
+                payload = pickle.dumps(("ok", fn(*args)))
+            except BaseException as ex:  # noqa
+                payload = pickle.dumps(("err", repr(ex)))
+            with os.fdopen(w, "wb") as f:
+                f.write(payload)
+        finally:
+            os._exit(0)
+    os.close(w)
+    with os.fdopen(r, "rb") as f:
+        data = f.read()
+    os.waitpid(pid, 0)
+    st, val = pickle.loads(data)
+    if st != "ok":
+        raise MachineryError("forked run failed: " + val)
+    return val
+
+
 # --------------------------------------------------------------------------------------------
 # judging protocol traces with TraceProtocol.tla
 # --------------------------------------------------------------------------------------------
